@@ -700,6 +700,42 @@ def _sep_rule(ck, F):
                   "%s (%s) separates function arguments with %s in a locale with %s; the parser expects %s there"
                   % (pname, helper_name, [chr(v) for v in got] or "a hard-coded literal", loc, want), hb.file, hb.line,
                   sample={"printer": pname, "role": "function arguments", "locale": loc, "char": [chr(v) for v in got], "parser_expects": want})
+    # every list a printer joins is an argument list: its separator is the locale's argument separator in every arm
+    from rules_panic import _const_str as _cs
+    for pname, pb, _, _ in printers:
+        sw = [x for x in enum_switches(pb, NODE)]
+        top = max(sw, key=lambda x: len(x[1]))
+        nj = 0
+        for var, entry in sorted(top[1].items()):
+            region = arm_region(pb, top[0], entry)
+            joins = [bi for bi in sorted(region) if pb.term(bi)["k"] == "call" and (pb.callee_q(pb.term(bi)) or "").rsplit("::", 1)[-1] == "join"
+                     and len(pb.term(bi)["args"]) == 2]
+            if not joins:
+                continue
+            for dot in (True, False):
+                loc = "decimal '.'" if dot else "decimal ','"
+                vals = _sep_locals(F, pb, entry, dot, None)
+                want = par["get_argument_separator_token"].get(dot)
+                for k, bi in enumerate(joins, 1):
+                    a = pb.term(bi)["args"][1]
+                    got = set()
+                    lit = _cs(pb, a) if _cs is not None else None
+                    if lit is not None and len(lit) == 1:
+                        got = {ord(lit)}
+                    else:
+                        pl = op_place(a)
+                        if pl is not None and not place_proj(pl):
+                            got = set(vals.get(pl["l"], ()))
+                    toks = set()
+                    for v in got:
+                        toks |= lex.get(chr(v), set())
+                    nj += 1
+                    f, l = pb.loc(bi)
+                    ck.ob(R, "%s|%s|join#%d|%s" % (pname, var, k, loc), len(got) == 1 and want in toks,
+                          "%s, arm %s: joins its arguments with %s in a locale with %s; the parser expects %s there (the lexer reads it as %s): "
+                          "the printed call does not parse back to the same arguments" % (pname, var, [chr(v) for v in got] or "an undetermined separator", loc, want, sorted(toks)),
+                          f, l, sample={"printer": pname, "arm": var, "locale": loc, "char": [chr(v) for v in got]})
+        ck.ob(R, "%s|joined-argument-lists" % pname, nj >= 4, "%s: expected the LAMBDA definition and call arms to join argument lists, found %d joins" % (pname, nj), pb.file, pb.line)
     # array nesting: rows are separated by the row separator (pushed in the outer loop), elements by the element separator
     for pname, pb, _, _ in printers:
         sw = [x for x in enum_switches(pb, NODE)]
